@@ -59,6 +59,104 @@ class RxCtx(Ctx):
             self._mutators = mut
         return self._mutators
 
+    def modset(self, path, argi):
+        """First-level field names of the object behind `&mut` parameter argi (1-based) that the local function
+        `path` may write (transitively); None = unknown (anything)."""
+        ms = self.cached("modsets", self._compute_modsets)
+        return ms.get((path, argi))
+
+    def _compute_modsets(self):
+        from .sym import StaticEnv
+        ALL = None
+        res = {}
+        info = {}
+        for b in self.f.bodies:
+            if b.kind == "Closure":
+                continue
+            for i in range(1, b.argc + 1):
+                if not strip_lt(b.locals[i]["ty"]).startswith("&mut "):
+                    continue
+                direct = set()
+                calls = []
+                unknown = False
+                se = StaticEnv(b, self.f)
+                # locals that hold (a reborrow of) the parameter
+                alias = {i}
+                changed = True
+                while changed:
+                    changed = False
+                    for blk in b.blocks:
+                        for st in blk["stmts"]:
+                            if st["k"] != "assign" or st["place"]["p"]:
+                                continue
+                            rv = st["rv"]
+                            src = None
+                            if rv["k"] == "ref" and rv["place"]["p"] == ["deref"] and rv["place"]["l"] in alias:
+                                src = rv["place"]["l"]
+                            elif rv["k"] == "use" and rv["op"]["k"] in ("copy", "move") and not rv["op"]["place"]["p"] and rv["op"]["place"]["l"] in alias:
+                                src = rv["op"]["place"]["l"]
+                            if src is not None and st["place"]["l"] not in alias:
+                                alias.add(st["place"]["l"])
+                                changed = True
+                fieldrefs = {}  # local -> field name (a &mut to one field)
+                for blk in b.blocks:
+                    for st in blk["stmts"]:
+                        if st["k"] != "assign":
+                            continue
+                        pl = st["place"]
+                        if pl["p"] and pl["p"][0] == "deref" and pl["l"] in alias:
+                            f = next((e["f"] for e in pl["p"][1:] if isinstance(e, dict) and "f" in e), None)
+                            if f is None:
+                                unknown = True
+                            else:
+                                direct.add(f)
+                        rv = st["rv"]
+                        if rv["k"] in ("ref", "rawptr") and rv.get("mut") and rv["place"]["p"] and rv["place"]["p"][0] == "deref" and rv["place"]["l"] in alias and len(rv["place"]["p"]) > 1:
+                            f = next((e["f"] for e in rv["place"]["p"][1:] if isinstance(e, dict) and "f" in e), None)
+                            if f is None:
+                                unknown = True
+                            elif not pl["p"]:
+                                fieldrefs[pl["l"]] = f
+                            else:
+                                direct.add(f)
+                for blk in b.blocks:
+                    t = blk["term"]
+                    if t["k"] != "call":
+                        continue
+                    d, r, fn = callee(t)
+                    for j, a in enumerate(t["args"]):
+                        if a["k"] not in ("copy", "move") or a["place"]["p"]:
+                            continue
+                        l = a["place"]["l"]
+                        if l in fieldrefs:
+                            direct.add(fieldrefs[l])
+                        elif l in alias and strip_lt(b.locals[l]["ty"]).startswith("&mut "):
+                            if r is not None and r in self.cg.local:
+                                calls.append((r, j + 1))
+                            else:
+                                unknown = True
+                info[(b.path, i)] = (direct, calls, unknown)
+        # fixpoint
+        for k, (direct, calls, unknown) in info.items():
+            res[k] = ALL if unknown else set(direct)
+        changed = True
+        while changed:
+            changed = False
+            for k, (direct, calls, unknown) in info.items():
+                if res[k] is ALL:
+                    continue
+                cur = set(res[k])
+                for c in calls:
+                    m = res.get(c, ALL) if c in info else ALL
+                    if m is ALL:
+                        cur = ALL
+                        break
+                    cur |= m
+                if cur is ALL or cur != res[k]:
+                    res[k] = cur
+                    changed = True
+        return res
+
     def impure(self, callee_path, term):
         if callee_path in self.cg.local:
             return callee_path in self.mutators()
@@ -67,6 +165,7 @@ class RxCtx(Ctx):
 
     def walk(self, body, **kw):
         kw.setdefault("impure", self.impure)
+        kw.setdefault("modset", self.modset)
         return sym.walk(body, self.f, **kw)
 
     def senv(self, body):
